@@ -22,9 +22,12 @@ cNONASCII == 8   cASTRAL == 9
 cSLASH == 10  cEQ == 11  cSP == 12  cLF == 13  cSEMI == 14  cQM == 15  cFF == 16
 cBOM == 17    \* U+FEFF met in the middle of decoded output
 cHASH == 18
+cPLUS == 19   cTILDE == 98   \* ASCII characters that escaping codecs must rewrite (utf-7: + ; hz: ~); ordinary for XML
+cSI == 96   cSO == 97        \* shift into / out of a multi-byte run of a stateful codec (never document characters)
 cGARBAGE == 99   \* a character decoded with a codec other than the one it was encoded with
 
 DocClasses == 1..9
+DocClassesX == DocClasses \cup {cPLUS, cTILDE}
 
 \* element names
 ePAGES == 20  ePAGE == 21  eTEXTBOX == 22  eTEXTLINE == 23  eTEXT == 24  eFIGURE == 25  eIMAGE == 26
@@ -135,21 +138,55 @@ XmlCharText(s, strip) == Enc(IF strip THEN StripCtl(s) ELSE s)
 XmlClose(k) == CloseTag(ElemOf(k))          \* also `</text>\n` after a glyph
 
 \* ------------------------------------------------------------------ sinks and codecs
-\* A binary sink holds units  c + 1000 * e : character c encoded with codec e.
-kUTF8 == 1   kUTF16 == 2   kLATIN1 == 3
-Codecs == {kUTF8, kUTF16, kLATIN1}
+\* A binary sink holds units  c + 1000 * e + 100000 * m : character c encoded with codec e in form m
+\*   m = 0 the character's own bytes in the base (ASCII-compatible) state,  m = 1 the escaped form of an ASCII character
+\*   the codec must rewrite,  m = 2 the character inside a shifted multi-byte run.
+\* Codec classes: ASCII-transparent stateless (utf-8, latin-1; also cp1252), signature / multi-byte (utf-16; also utf-32,
+\* utf-8-sig), ASCII-escaping and shifting (utf-7 rewrites +, hz rewrites ~), stateful shifting (iso2022_jp).
+kUTF8 == 1   kUTF16 == 2   kLATIN1 == 3   kUTF7 == 4   kHZ == 5   kISO2022 == 6
+Codecs == 1..6
+Shifting(e) == e \in {kUTF7, kHZ, kISO2022}
+EscapeChar(e) == CASE e = kUTF7 -> cPLUS [] e = kHZ -> cTILDE [] OTHER -> 0
+NeedsShift(c) == c \in {cNONASCII, cASTRAL}
 IsAsciiChar(c) == c \notin {cNONASCII, cASTRAL, cBOM, cGARBAGE}
-Representable(e, s) == e # kLATIN1 \/ \A q \in 1..Len(s) : s[q] # cASTRAL
+AllAscii(s) == \A q \in 1..Len(s) : IsAsciiChar(s[q])
+\* (the non-ASCII BMP class is realised by a character the codec has: e-acute for latin-1, a CJK ideograph for hz / iso2022_jp)
+Representable(e, s) == e \in {kUTF8, kUTF16, kUTF7} \/ \A q \in 1..Len(s) : s[q] # cASTRAL
+UnitCodec(u) == (u \div 1000) % 100
+UnitForm(u) == u \div 100000
+UnitChar(u) == u % 1000
 \* one encode call of a stateless encoder; `first` = nothing has been written to this sink yet
 EncodeCall(text, e, first, bomEveryCall) ==
   (IF e = kUTF16 /\ (first \/ bomEveryCall) THEN <<cBOM + 1000 * e>> ELSE <<>>)
   \o [q \in 1..Len(text) |-> text[q] + 1000 * e]
+\* one encode call of the incremental encoder of a shifting codec; sh = inside a shifted run when the call begins
+RECURSIVE EncShift(_, _, _, _)
+EncShift(text, q, e, sh) ==
+  IF q > Len(text) THEN [u |-> <<>>, sh |-> sh]
+  ELSE LET c == text[q]
+           sh2 == NeedsShift(c)
+           pre == IF sh2 /\ ~sh THEN <<cSI + 1000 * e>> ELSE IF ~sh2 /\ sh THEN <<cSO + 1000 * e>> ELSE <<>>
+           unit == c + 1000 * e + (IF sh2 THEN 200000 ELSE IF c = EscapeChar(e) THEN 100000 ELSE 0)
+           rest == EncShift(text, q + 1, e, sh2) IN
+       [u |-> pre \o <<unit>> \o rest.u, sh |-> rest.sh]
 \* the standard decoder of codec e applied to the whole sink
 DecodeUnit(u, e, atStart) ==
-  LET ue == u \div 1000  c == u % 1000 IN
+  LET ue == UnitCodec(u)  c == UnitChar(u) IN
   IF ue = e THEN (IF c = cBOM /\ atStart /\ e = kUTF16 THEN <<>> ELSE <<c>>)
   ELSE IF e # kUTF16 /\ ue # kUTF16 /\ IsAsciiChar(c) THEN <<c>> ELSE <<cGARBAGE>>
-Decode(units, e) == SeqX!FlattenSeq([q \in 1..Len(units) |-> DecodeUnit(units[q], e, q = 1)])
+RECURSIVE DecShift(_, _, _, _)
+DecShift(units, q, e, sh) ==
+  IF q > Len(units) THEN <<>>
+  ELSE LET u == units[q]  c == UnitChar(u)  m == UnitForm(u) IN
+       IF c = cSI THEN (IF sh THEN <<cGARBAGE>> ELSE <<>>) \o DecShift(units, q + 1, e, TRUE)
+       ELSE IF c = cSO THEN (IF sh THEN <<>> ELSE <<cGARBAGE>>) \o DecShift(units, q + 1, e, FALSE)
+       ELSE (IF m = 2 THEN (IF sh THEN <<c>> ELSE <<cGARBAGE>>)
+             ELSE IF m = 1 THEN (IF sh THEN <<cGARBAGE>> ELSE <<c>>)
+             \* plain bytes: inside a shifted run they are read as part of it; an escape character starts an escape
+             ELSE IF sh \/ c = EscapeChar(e) \/ NeedsShift(c) THEN <<cGARBAGE>> ELSE <<c>>)
+            \o DecShift(units, q + 1, e, sh)
+Decode(units, e) == IF Shifting(e) THEN DecShift(units, 1, e, FALSE)
+                    ELSE SeqX!FlattenSeq([q \in 1..Len(units) |-> DecodeUnit(units[q], e, q = 1)])
 
 \* ------------------------------------------------------------------ reference 1: the text of the hierarchy
 \* in-order concatenation of the text of the leaves, one LF after each text box, one FF after each page;
